@@ -16,6 +16,7 @@ import (
 	"strconv"
 	"strings"
 	"syscall"
+	"time"
 )
 
 // ---------------------------------------------------------------- the fault-injecting git shim
@@ -911,6 +912,13 @@ func init() {
 				fmtArgs = []string{"--verbose"}
 			}
 			sargs := append(append([]string{"--names=" + in[5]}, fmtArgs...), substArgs(args, rr)...)
+			// this engine has heavy cases (thousands of references with hundreds of regular-expression groups, trees
+			// above 1 MiB) and a pass under the -race build, which is 5-10 times slower: the hang limit is raised
+			hangLimit = 90 * time.Second
+			if os.Getenv("VERIF_RACE") == "1" {
+				hangLimit = 300 * time.Second
+			}
+			defer func() { hangLimit = 20 * time.Second }()
 			before := snapshotDir(w)
 			bin := sizerBin()
 			if os.Getenv("VERIF_RACE") == "1" {
